@@ -1621,12 +1621,21 @@ func (e *ForExpr) Value(ctx *hcl.EvalContext) (cty.Value, hcl.Diagnostics) {
 			} else {
 				k := key.AsString()
 				if _, exists := vals[k]; exists {
+					// NOTE: we don't know what any marks might've represented
+					// up at the calling application layer, so we must avoid
+					// showing the key in the error message in case the mark
+					// represents something important, such as the key being
+					// "sensitive".
+					keyDesc := fmt.Sprintf("the key %q", k)
+					if len(keyMarks) > 0 || len(collMarks) > 0 {
+						keyDesc = "the same key"
+					}
 					diags = append(diags, &hcl.Diagnostic{
 						Severity: hcl.DiagError,
 						Summary:  "Duplicate object key",
 						Detail: fmt.Sprintf(
-							"Two different items produced the key %q in this 'for' expression. If duplicates are expected, use the ellipsis (...) after the value expression to enable grouping by key.",
-							k,
+							"Two different items produced %s in this 'for' expression. If duplicates are expected, use the ellipsis (...) after the value expression to enable grouping by key.",
+							keyDesc,
 						),
 						Subject:     e.KeyExpr.Range().Ptr(),
 						Context:     &e.SrcRange,
